@@ -100,8 +100,23 @@ Definition final_checks (k : acc) (f : final) : list verdict :=
 Definition in_set (lo hi : Z) (v : verdict) : bool :=
   match v with VProp c _ => (lo <=? c) && (c <? hi) | _ => false end.
 
+(* the attack command interrupted once: it must finish the hits in flight, write exactly one result
+   per started hit (sequence numbers 0..n-1) and end by itself with status 0 *)
+Definition check_cli : rd verdict :=
+  served <- getz ;; n <- getz ;; seqs_ok <- getbool ;; exit_ok <- getbool ;; in_time <- getbool ;;
+  ret (combine_verdicts
+    [ prop_ok 250 (in_time && exit_ok) [n; served];
+      prop_ok 251 (seqs_ok && (served <=? n)) [n; served] ]).
+
+Definition getcase_with (mw : Z) : rd acase :=
+  iw <- getz ;; d <- getz ;; fl <- getlist getz ;;
+  steps <- getlist (getpair getaction getsnap) ;; fin <- getfinal ;;
+  ret {| a_cfg := {| maxw := mw; initw := iw; du := d; fails := fl |}; a_steps := steps; a_final := fin |}.
+
 Definition check_for (lo hi : Z) : rd verdict :=
-  cs <- getcase ;;
+  mw <- getz ;;
+  if mw =? 0 then check_cli else
+  cs <- getcase_with mw ;;
   let c := a_cfg cs in
   let k := fold_left (step_acc c) (a_steps cs) acc0 in
   let props := filter (in_set lo hi) (rev (k_ok k) ++ final_checks k (a_final cs)) in
